@@ -546,9 +546,9 @@ IMPL_RE = re.compile(r"<impl at ([^:>]+):(\d+):(\d+): (\d+):(\d+)>")
 
 
 class Mir:
-    def __init__(self, path, repo_src="/repo/rust/altrios-core/src"):
+    def __init__(self, path, repo_src=None):
         self.path = path
-        self.repo_src = repo_src
+        self.repo_src = repo_src or os.path.join(os.environ.get("NREL_ALTRIOS_REPO", "/repo"), "rust/altrios-core/src")
         txt = open(path).read()
         self.hash = hashlib.sha256(txt.encode()).hexdigest()[:16]
         self.bodies = {}
